@@ -146,8 +146,8 @@ func (d *CSVDecoder) Decode(data []byte, _ ...any) (any, error) {
 	buffers.fieldIndexes = buffers.fieldIndexes[:0]
 parseField:
 	for {
-		if data[0] != quoteChar {
-			// Non-quoted string field
+		if len(data) == 0 || data[0] != quoteChar {
+			// Non-quoted string field (empty when the data ends right after a delimiter)
 			i := bytes.IndexByte(data, d.params.delimiter)
 			field := data
 			if i >= 0 {
@@ -176,12 +176,16 @@ parseField:
 					// Hit next quote.
 					buffers.recordBuffer = append(buffers.recordBuffer, data[:i]...)
 					data = data[i+quoteLen:]
-					switch rn := data[0]; {
-					case rn == quoteChar:
+					switch {
+					case len(data) == 0:
+						// `"` at the end of data without a line terminator (end of data).
+						buffers.fieldIndexes = append(buffers.fieldIndexes, len(buffers.recordBuffer))
+						break parseField
+					case data[0] == quoteChar:
 						// `""` sequence (append quote).
 						buffers.recordBuffer = append(buffers.recordBuffer, quoteChar)
 						data = data[quoteLen:]
-					case rn == d.params.delimiter:
+					case data[0] == d.params.delimiter:
 						// `",` sequence (end of field).
 						data = data[delimiterLen:]
 						buffers.fieldIndexes = append(buffers.fieldIndexes, len(buffers.recordBuffer))
